@@ -969,7 +969,7 @@ class PureScheduler:                                    # pylint: disable=r0902
         """
         # create a Window no matter what; it will know what to do
         # also if jobs_window is None
-        window = Window(self.jobs_window)
+        window = Window(self.jobs_window, self.jobs)
 
         # initialize; this one is not crucial but is helpful
         # for debugging purposes
